@@ -294,6 +294,48 @@ def run(facts, tr, rep):
                            "on one construction path the store's TTL is %s instead of the configured ttl: entries of a cache built "
                            "that way never expire (or expire at the wrong age)" % show(lf)[:60])
         rep.floor("C10.store-ttl-origins", nttl, 2)
+        # the store is built from the configuration at every construction site: each argument of the store's constructor
+        # reads a configuration field (or is the caller's own argument, for a public constructor), and the construction
+        # sites agree argument by argument on which field that is (sibling agreement: the per-service store, the shared
+        # store and the store of a shared layer built from an existing configuration are the same cache)
+        ctors = [b for b in facts.crates[CRATE].bodies if sadt and b.kind == "fn" and b.impl and not b.impl.get("trait")
+                 and sg.types[sg.impl["self_ty"]].get("def") == (b.crate.types[b.impl["self_ty"]].get("def"))
+                 and any(ab is b for (ab, _i, _j, _rv) in agg_sites(facts, sadt)) and b.arg_count >= 1]
+        nsites = 0
+        per_pos = {}
+        for cb in ctors:
+            for c in tr.callers(cb.def_):
+                if c.g.b.crate.name != CRATE:
+                    continue
+                nsites += 1
+                for pos, a in enumerate(c.args):
+                    v = tr.expand(tr.operand(c.g.b, a, c.loc), upvars=True, params=True)       # through forwarding helpers
+                    flds = set()
+                    bad = None
+                    for lf in leaves(v):
+                        lf = peel(lf)
+                        fs = {x[2] for x in tr.walk(lf, limit=120) if x[0] == "field" and isinstance(x[2], str)}
+                        if fs:
+                            flds |= fs
+                        elif lf[0] == "param" and facts.bodies.get(lf[2]) is not None and facts.bodies[lf[2]].j.get("vis") == "pub":
+                            flds.add("<argument>")
+                        else:
+                            bad = lf
+                    per_pos.setdefault((cb.def_, pos), []).append((c, flds, bad))
+        for (cd, pos), lst in sorted(per_pos.items(), key=lambda kv: kv[0]):
+            good = [f for (_c, f, b_) in lst if b_ is None and f]
+            common = set.intersection(*good) if good else set()
+            lst = sorted(lst, key=lambda t: (t[0].g.b.def_, t[0].bb))
+            for k_, (c, flds, bad) in enumerate(lst):
+                agree = bool(common) or len(good) <= 1
+                okc = bad is None and bool(flds) and agree
+                rep.ob("C10.POLICY", skey(c.g.b, "store-config-origin.arg%d@%d" % (pos, sum(1 for x in lst[:k_] if x[0].g.b is c.g.b))),
+                       okc, c.where(),
+                       "argument %d of the store constructor is read from the configuration (%s), as at the other construction sites" % (pos, ", ".join(sorted(flds))) if okc else
+                       "argument %d of the store constructor %s: a cache built through this site ignores the configured value "
+                       "(capacity, ttl or eviction policy) that the other sites honour" % (pos, ("is %s, not a configuration field" % show(bad)[:60]) if bad is not None or not flds else
+                                                                                            "reads %s where the other construction sites read a different field" % sorted(flds)))
+        rep.floor("C10.store-construction-sites", nsites, 1)
     rep.ob("C10.EXPIRY", "%s|expiry-predicate" % CRATE, bool(store_get) and bool(expiry_fns), "-",
            "the expiry predicate consulted by the lookup is elapsed(inserted_at) > ttl (%s)" % sorted(x.split("::")[-1] for x in expiry_fns) if store_get and expiry_fns else
            "no predicate of the form inserted_at.elapsed() > ttl guards the lookup")
@@ -486,6 +528,45 @@ def run(facts, tr, rep):
                        "%s::%s removes from all of its containers (%s)" % (short, nm, sorted(containers)) if ok else
                        "%s::%s removes from %s but not from %s: a stale key left behind is later evicted 'successfully' without freeing "
                        "an entry, so the cache exceeds its capacity / evicts the wrong victim" % (short, nm, sorted(touched), sorted(set(containers) - touched)))
+                # ... on every path: whenever an entry leaves the primary map, each bookkeeping container drops the key
+                # too before the method returns (or has dropped it already).  A removal that is conditional on where the
+                # key happens to sit (`if queue.front() == Some(key) { queue.pop_front(); }`) leaves stale keys behind on
+                # the other paths.  The `None` answer of the primary removal itself (nothing was removed) is not such a path.
+                if primary is None or not ok:
+                    continue
+                gm = graph(mb)
+                rets = [b_ for b_ in range(gm.n) if gm.term(b_)["k"] == "return"]
+                for k_, (c, f) in enumerate([(c_, f_) for (c_, f_) in rms if f_ == primary]):
+                    real = c.c if isinstance(c, _AtBlock) else c
+                    nothing = []
+                    if real.g.b is mb:
+                        me = ("call", mb.crate.name, mb.def_, real.bb)
+                        for bb in range(gm.n):
+                            sw = gm.switch(bb)
+                            if sw is None or sw.kind != "enum" or not ({"None", "Break"} & set(sw.variants)):
+                                continue
+                            nd = peel(tr.expand(tr.place(mb, sw.place, sw.defloc), upvars=True))
+                            lab = "None"
+                            if "None" not in sw.variants:        # `map.remove(k)?`
+                                if not (nd[0] == "call" and tr.call_of(nd).def_ == TRY_BRANCH):
+                                    continue
+                                cc_ = tr.call_of(nd)
+                                nd = peel(tr.expand(tr.operand(mb, cc_.args[0], cc_.loc), upvars=True))
+                                lab = "Break"
+                            if nd == me or any(peel(x) == me for x in leaves(nd)):
+                                nothing.append((bb, sw.variants[lab]))
+                    for g_ in sorted(set(containers) - {primary}):
+                        gblocks = {x.bb for (x, ff) in rms if ff == g_}
+                        if c.bb in gblocks:
+                            continue
+                        before = gm.reach([0], kinds=(N,), avoid_nodes=gblocks)
+                        after = gm.reach([c.bb], kinds=(N,), avoid_nodes=gblocks, avoid_edges=nothing)
+                        leak = c.bb in before and any(b_ in after for b_ in rets)
+                        rep.ob("C10.COHERENT", "%s|%s|%s.paired.%s#%d" % (CRATE, short, nm, g_, k_), not leak, c.where(),
+                               "every path of %s::%s that removes an entry from `%s` also removes the key from `%s`" % (short, nm, primary, g_) if not leak else
+                               "%s::%s can remove an entry from `%s` and return without removing the key from `%s` (the removal from `%s` is "
+                               "conditional): the stale key is later evicted 'successfully' without freeing an entry, so the cache exceeds "
+                               "max_size" % (short, nm, primary, g_, g_))
     facts, tr = facts_s, tr_s
     # ---------------------------------------------------------------- SHARE
     st = sb.types[sb.impl["self_ty"]]
